@@ -361,6 +361,6 @@ def strata(tier, seed):
                   bounds={'r': sorted({c['r'] for c in cs}), 'n-r': [1, max(c['n'] - c['r'] for c in cs)],
                           'k': 'every limit 0..fixpoint+2, 100, default', 'e': cs[0]['es']})
     fm = [dict(c) for c in cs if not c.get('huge') and c['n'] - c['r'] >= 2 and c.get('tag', 0) == 0]
-    yield Stratum('argument forms', fm, 'forms', size=len(fm), chunk=4, bounds={'forms': ['fortran', 'strided', 'int64', 'numpy scalars']})
+    yield Stratum('argument forms', fm, 'forms', seq=True, size=len(fm), chunk=4, bounds={'forms': ['fortran', 'strided', 'int64', 'numpy scalars']})
     yield Stratum('rect-all-dr-pairs', [dict(c) for c in cs], 'rect', size=len(cs), chunk=2,
                   bounds={'dr_min': '-1..n-r+1', 'dr_max': '0..n-r+1 and None'})
